@@ -10,5 +10,9 @@ Definition dispatch (u : Z) (a : sx) : sx :=
   | 1 => u_get_n_best a
   | 2 => u_highest_averages a
   | 3 => u_divisor a
+  | 4 => u_quota_distributor false a
+  | 5 => u_quota_distributor true a
+  | 6 => u_quota a
+  | 7 => u_quota_selector a
   | _ => bad_input
   end.
